@@ -36,7 +36,7 @@ fn main() {
   out.rec(&format!("profile {} {}", if is_debug() { "debug" } else { "release" }, if has_bmi2() { "bmi2" } else { "lut" }), "ok");
   if prop == "C20" {
     // parent: one sub-process per batch (each slot of the two lazy tables can be used once per process)
-    let nb = if thorough { 12 } else { 6 };
+    let nb = if thorough { 13 } else { 7 };
     let exe = std::env::current_exe().unwrap();
     for b in 0..nb {
       let sub = format!("{}/batch{}", dir, b);
@@ -75,7 +75,8 @@ fn main() {
     let b: usize = args[5].parse().unwrap_or(0);
     let sched = c20::gen_schedules(&mut rng, b, thorough);
     if b == 0 { /* batch 0 also hosts nothing else */ }
-    if b + 1 == (if thorough { 12 } else { 6 }) { c20::stress(&mut out); } else { c20::run_batch(&mut out, &sched); }
+    let nb = if thorough { 13 } else { 7 };
+    if b + 1 == nb { c20::stress(&mut out); } else if b + 2 == nb { c20::cross(&mut out); } else { c20::run_batch(&mut out, &sched); }
     out.finish(dir, "C20", &profile);
     return;
   }
